@@ -539,6 +539,52 @@ def update_pass(w, k, op, before, sim, reports):
 STATELESS = [update_pass, c02_counts, c03_no_divert, c04_step, c06_motion, c07_location, c08_indexes, c09_atomic, c10_membership,
              c17_dispatch, c18_fifo, c20_shifts]
 
+class QueueWatch:
+    """C18 by OBSERVED arrival: when each vehicle was first seen waiting in a station's queue (the clock at that moment) is recorded
+    from the states themselves, not read from the enqueue time the vehicle carries; a vehicle that is seen joining a queue strictly
+    earlier and is still waiting when a later arrival starts charging on that plug type has been overtaken."""
+    def __init__(self, w):
+        self.joined = {}
+        for v in w.sim.vehicles.values():
+            st = v.vehicle_state
+            if isinstance(st, ChargeQueueing):
+                self.joined[v.id] = (st.station_id, st.charger_id, int(st.enqueue_time))
+    def observe(self, w, k, op, before, sim, reports):
+        out = []
+        now = int(before.sim_time)
+        # overtaking inside this operation, judged with the arrivals observed so far
+        waiting = {}
+        for vid, (sid, cid, t) in self.joined.items():
+            bv = before.vehicles.get(vid)
+            if bv is not None and isinstance(bv.vehicle_state, ChargeQueueing) and bv.vehicle_state.station_id == sid and bv.vehicle_state.charger_id == cid:
+                waiting.setdefault((sid, cid), []).append((t, vid))
+        for (sid, cid), q in waiting.items():
+            q.sort()
+            def started(vid):
+                st = sim.vehicles[vid].vehicle_state if vid in sim.vehicles else None
+                return isinstance(st, ChargingStation) and st.station_id == sid and st.charger_id == cid
+            def still_waiting(vid):
+                st = sim.vehicles[vid].vehicle_state if vid in sim.vehicles else None
+                return isinstance(st, ChargeQueueing) and st.station_id == sid and st.charger_id == cid
+            for a in range(len(q)):
+                for b in range(a + 1, len(q)):
+                    if q[a][0] < q[b][0] and still_waiting(q[a][1]) and started(q[b][1]) and op[0] == 'update':
+                        out.append(('C18', 'overtaken_in_queue', {'station': sid, 'charger': cid, 'left_waiting': q[a][1], 'served': q[b][1],
+                                                                   'seen_joining_at': {q[a][1]: q[a][0], q[b][1]: q[b][0]}, 'by': 'observed arrival'}))
+        # arrivals and departures of this operation
+        for vid, v in sim.vehicles.items():
+            st = v.vehicle_state
+            if isinstance(st, ChargeQueueing):
+                old = self.joined.get(vid)
+                bst = before.vehicles[vid].vehicle_state if vid in before.vehicles else None
+                same_wait = isinstance(bst, ChargeQueueing) and bst.station_id == st.station_id and bst.charger_id == st.charger_id
+                if old is None or not same_wait:
+                    self.joined[vid] = (st.station_id, st.charger_id, now)
+            else:
+                self.joined.pop(vid, None)
+        return out
+
 def all_observers(w):
     led = Ledger(w)
-    return STATELESS + [led.observe]
+    qw = QueueWatch(w)
+    return STATELESS + [led.observe, qw.observe]
